@@ -2,10 +2,12 @@
    well-formed event list. *)
 From Util Require Import Common.Base Common.ListLemmas RefCount.Model RefCount.Proofs.
 
-(* the resolver call on goroutine g returns the generation-unique value g+1 and never context.Canceled (the codec
-   produces only such events, see Spec.hstep) *)
+(* the resolver call on goroutine g returns the generation-unique value g+1, or - only together with an error - the
+   empty value 0 (`return zero, rel, err`), and never context.Canceled (the codec produces only such events, see
+   Spec.hstep) *)
+Definition val_ok (g v er : nat) : Prop := v = S g \/ (v = 0 /\ er <> 0).
 Definition wf_ev (e : ev) : Prop :=
-  match e with EResReturn g v hr er => v = S g /\ er <> 1 | _ => True end.
+  match e with EResReturn g v hr er => val_ok g v er /\ er <> 1 | _ => True end.
 
 (* ------------------------------------------------------------------ *)
 (* goroutine table access *)
@@ -210,11 +212,11 @@ Definition InvN (s : st) : Prop := forall i, i < length (gs s) ->
   (forall j, j < i -> gnonce (getg s j) < gnonce (getg s i)).
 
 Definition InvS (s : st) : Prop := forall i, i < length (gs s) ->
-  (forall v hr e, gpcv (getg s i) = GStore v hr e -> v = S i /\ grel (getg s i) = hr) /\
+  (forall v hr e, gpcv (getg s i) = GStore v hr e -> val_ok i v e /\ grel (getg s i) = hr) /\
   (gpcv (getg s i) = GWaitC -> gcanc (getg s i) = true).
 
 Definition entry_ok (s : st) (c : relcall) : Prop :=
-  rc_val c = S (rc_id c) /\ rc_target c <> rc_val c /\ rc_stale c = 0 /\ rc_id c < length (gs s) /\
+  (rc_val c = S (rc_id c) \/ rc_val c = 0) /\ rc_target c <> S (rc_id c) /\ rc_stale c = 0 /\ rc_id c < length (gs s) /\
   gdone (getg s (rc_id c)) = true /\ grel (getg s (rc_id c)) = true.
 
 Definition InvL123 (s : st) : Prop :=
@@ -228,7 +230,7 @@ Definition InvL4 (s : st) : Prop :=
     (exists v e, gpcv (getg s g) = GStore v true e) \/ vrel s = Some g \/ In g (ids s).
 
 Definition InvV (s : st) : Prop :=
-  (resolved s = true -> value s = S (vgen s) /\ vgen s < length (gs s) /\ gdone (getg s (vgen s)) = true /\
+  (resolved s = true -> val_ok (vgen s) (value s) (verr s) /\ vgen s < length (gs s) /\ gdone (getg s (vgen s)) = true /\
                         gnonce (getg s (vgen s)) = nonce s) /\
   (resolved s = false -> vrel s = None /\ value s = 0 /\ verr s = 0 /\ target s = 0 /\ terr s = 0) /\
   (forall g, vrel s = Some g -> g = vgen s) /\
@@ -236,8 +238,10 @@ Definition InvV (s : st) : Prop :=
 
 Definition InvR (s : st) : Prop :=
   (forall r x, nth_error (refs s) r = Some x -> rkind x = KNil -> rlast x = None) /\
-  (forall r x v e, nth_error (refs s) r = Some x -> rlast x = Some (NRes v e) ->
-     exists g, v = S g /\ g < length (gs s) /\ gdone (getg s g) = true) /\
+  ((forall r x v e, nth_error (refs s) r = Some x -> rlast x = Some (NRes v e) ->
+      (v = 0 /\ e <> 0) \/ exists g, v = S g /\ g < length (gs s) /\ gdone (getg s g) = true) /\
+   (* while nothing is resolved no reference in the set believes in a result *)
+   (resolved s = false -> forall r x v e, nth_error (refs s) r = Some x -> rin x = true -> rlast x <> Some (NRes v e))) /\
   (resolved s = true -> forall r x, nth_error (refs s) r = Some x -> rin x = true -> rkind x <> KNil ->
      rlast x = Some (NRes (value s) (verr s))).
 
@@ -288,7 +292,9 @@ Proof.
   unfold Inv, Core, Live, InvN, InvS, InvL123, InvL4, InvV, InvR, ids, init, nrefs. cbn.
   repeat split; try (intros; lia); try discriminate; try (intros; discriminate); try constructor; try contradiction.
   all: try (intros [|r] x H; discriminate). all: try (intros [|r] x v e H; discriminate).
+  all: try (intros _ [|r] x v e H; discriminate).
   all: intros; try lia.
+  all: match goal with H : nth_error [] ?r = Some _ |- _ => destruct r; discriminate end.
 Qed.
 
 (* ------------------------------------------------------------------ *)
@@ -393,7 +399,7 @@ Qed.
 
 Lemma shutdown_core s : Core s -> Core (shutdown s).
 Proof.
-  intros [HN [HS [[L1 [L2 L3]] [HL4 [[V1 [V2 [V3 V5]]] [R1 [R2 R3]]]]]]].
+  intros [HN [HS [[L1 [L2 L3]] [HL4 [[V1 [V2 [V3 V5]]] [R1 [[R2 R4] R3]]]]]]].
   pose proof (shutdown_refs_back s) as RB.
   destruct (shutdown_spec s) as [C1 [C2 [C3 [C4 [GS [C6 [C7 [C8 [C9 [C10 [C11 [C12 [C13 [C14 [C15 C16]]]]]]]]]]]]]]].
   set (s' := shutdown s) in *. clearbody s'.
@@ -413,8 +419,10 @@ Proof.
       apply in_app_or in Hc. destruct Hc as [Hc|[<-|[]]]; [apply EM, L2, Hc|].
       destruct (L3 id eq_refl) as [_ [Lid [Ldone Lrel]]].
       destruct (resolved s) eqn:Er; [|destruct (V2 eq_refl) as [X _]; congruence].
-      destruct (V1 eq_refl) as [Ev1 _]. rewrite (V3 id eq_refl) in *. unfold entry_ok. cbn [rc_id rc_val rc_target rc_stale].
-      split; [exact Ev1|]. split; [rewrite C11, Ev1; cbn; discriminate|]. split.
+      destruct (V1 eq_refl) as [Ev1 _]. destruct (V5 eq_refl) as [_ T2]. rewrite (V3 id eq_refl) in *. unfold entry_ok. cbn [rc_id rc_val rc_target rc_stale].
+      split; [destruct Ev1 as [Ev1|[Ev1 _]]; auto|]. split.
+      { rewrite C11. destruct Ev1 as [Ev1|[Ev1 Ee]]; rewrite Ev1; cbn [Nat.eqb]; [discriminate|]. destruct (T2 Ee) as [T _]. rewrite T. discriminate. }
+      split.
       * apply cnt_zero_forall. intros x' Hin. destruct (In_nth_error _ _ Hin) as [r Hr].
         destruct (RB r x' Hr) as [x [Hx [A1 [A2 [_ [A4 A5]]]]]].
         destruct (rin x') eqn:Ein; [|reflexivity]. cbn [andb]. rewrite <- A1 in A5.
@@ -428,13 +436,20 @@ Proof.
     + destruct (vrel s); [rewrite map_app; apply in_or_app; now left | exact H].
   - (* InvV *) split; [intros; congruence|]. split; [|split; [intros; congruence | intros; congruence]].
     intros _. split; [exact C7|]. rewrite C9, C10, C11, C12. destruct (resolved s) eqn:Er.
-    + destruct (V1 eq_refl) as [Ev1 _]. destruct (V5 eq_refl) as [T1 T2]. rewrite Ev1. cbn [Nat.eqb].
-      repeat split; try reflexivity. destruct (Nat.eqb_spec (verr s) 0) as [E0|E0]; [apply (T1 E0) | reflexivity].
+    + destruct (V1 eq_refl) as [Ev1 _]. destruct (V5 eq_refl) as [T1 T2].
+      split; [reflexivity|]. split; [reflexivity|]. split.
+      * destruct Ev1 as [Ev1|[Ev1 Ee]]; rewrite Ev1; cbn [Nat.eqb]; [reflexivity | apply (T2 Ee)].
+      * destruct (Nat.eqb_spec (verr s) 0) as [E0|E0]; [apply (T1 E0) | reflexivity].
     + destruct (V2 eq_refl) as [_ [X1 [X2 [X3 X4]]]]. auto.
-  - (* InvR *) split; [|split; [|intros; congruence]].
+  - (* InvR *) split; [|split; [split|intros; congruence]].
     + intros r x' Hx' K. destruct (RB r x' Hx') as [x [Hx [A1 [A2 [_ [A4 _]]]]]]. rewrite A2 in K. rewrite (A4 K). exact (R1 r x Hx K).
     + intros r x' v e Hx' Hl. destruct (RB r x' Hx') as [x [Hx [A1 [A2 [[A3|A3] _]]]]]; [|congruence].
-      rewrite A3 in Hl. destruct (R2 r x v e Hx Hl) as [g [G1 [G2 G3]]]. exists g. split; [exact G1|]. split; [lia|]. now rewrite GD.
+      rewrite A3 in Hl. destruct (R2 r x v e Hx Hl) as [Z|[g [G1 [G2 G3]]]]; [now left|]. right. exists g. split; [exact G1|]. split; [lia|]. now rewrite GD.
+    + intros _ r x' v e Hx' Hin Hl. destruct (RB r x' Hx') as [x [Hx [A1 [A2 [[A3|A3] [A4 A5]]]]]]; [|congruence]. rewrite A1 in Hin.
+      destruct (resolved s) eqn:Er; [|rewrite A3 in Hl; exact (R4 eq_refl r x v e Hx Hin Hl)].
+      destruct (rkind x) eqn:K.
+      1:{ rewrite (A4 eq_refl), (R1 r x Hx K) in Hl. discriminate. }
+      all: rewrite (A5 eq_refl Hin ltac:(discriminate)) in Hl; discriminate.
 Qed.
 
 Lemma shutdown_nonces_below s : InvN s -> forall i, i < length (gs (shutdown s)) -> gnonce (getg (shutdown s) i) < nonce (shutdown s).
@@ -475,7 +490,7 @@ Lemma Core_spawn s x :
   Core s -> gnonce x = nonce s -> (forall i, i < length (gs s) -> gnonce (getg s i) < nonce s) ->
   (gcanc x = true -> rcanc s (groot x) = true) -> gpcv x = GGate0 -> grel x = false -> Core (set_gs s (gs s ++ [x])).
 Proof.
-  intros [HN [HS [[L1 [L2 L3]] [HL4 [[V1 [V2 [V3 V5]]] [R1 [R2 R3]]]]]]] En HB Ec Ep Er.
+  intros [HN [HS [[L1 [L2 L3]] [HL4 [[V1 [V2 [V3 V5]]] [R1 [[R2 R4] R3]]]]]]] En HB Ec Ep Er.
   set (s' := set_gs s (gs s ++ [x])).
   assert (GO : forall i, i < length (gs s) -> getg s' i = getg s i) by (intros i Hi; now apply getg_spawn_old).
   assert (GNw : getg s' (length (gs s)) = x) by apply getg_spawn_new.
@@ -497,8 +512,8 @@ Proof.
   - split; [|split; [exact V2 | split; [exact V3 | exact V5]]].
     intros Hres. destruct (V1 Hres) as [A1 [A2 [A3 A4]]]. change (vgen s') with (vgen s). change (value s') with (value s).
     change (nonce s') with (nonce s). rewrite (GO _ A2). split; [exact A1|]. split; [lia|]. auto.
-  - split; [exact R1|]. split; [|exact R3].
-    intros r y v e Hy Hl. destruct (R2 r y v e Hy Hl) as [g [G1 [G2 G3]]]. exists g. rewrite (GO g G2). split; [exact G1|]. split; [lia | exact G3].
+  - split; [exact R1|]. split; [split; [|exact R4]|exact R3].
+    intros r y v e Hy Hl. destruct (R2 r y v e Hy Hl) as [Z|[g [G1 [G2 G3]]]]; [now left|]. right. exists g. rewrite (GO g G2). split; [exact G1|]. split; [lia | exact G3].
 Qed.
 
 Lemma Live_spawn s x :
@@ -569,11 +584,11 @@ Section SetPc.
   Qed.
 
   Lemma setpc_core5 :
-    (forall v hr e, p = GStore v hr e -> v = S g) -> (p = GWaitC -> gcanc x = true) ->
+    (forall v hr e, p = GStore v hr e -> val_ok g v e) -> (p = GWaitC -> gcanc x = true) ->
     InvN s -> InvS s -> InvL123 s -> InvV s -> InvR s ->
     InvN s' /\ InvS s' /\ InvL123 s' /\ InvV s' /\ InvR s'.
   Proof.
-    intros Hp1 Hp2 HN HS [L1 [L2 L3]] [V1 [V2 [V3 V5]]] [R1 [R2 R3]].
+    intros Hp1 Hp2 HN HS [L1 [L2 L3]] [V1 [V2 [V3 V5]]] [R1 [[R2 R4] R3]].
     pose proof setpc_len as GL. pose proof setpc_done_same as DS.
     split; [|split; [|split; [|split]]].
     - intros i Hi. rewrite GL in Hi. destruct (HN i Hi) as [N1 [N2 N3]]. destruct (setpc_nonce i) as [E1 [E2 E0]].
@@ -590,8 +605,8 @@ Section SetPc.
     - split; [|split; [exact V2 | split; [exact V3 | exact V5]]].
       intros Hres. destruct (V1 Hres) as [A1 [A2 [A3 A4]]]. change (vgen s') with (vgen s). change (value s') with (value s).
       change (nonce s') with (nonce s). rewrite (DS _ A3), GL. auto.
-    - split; [exact R1|]. split; [|exact R3].
-      intros r y v e Hy Hl. destruct (R2 r y v e Hy Hl) as [g' [G1 [G2 G3]]]. exists g'. rewrite (DS g' G3), GL. auto.
+    - split; [exact R1|]. split; [split; [|exact R4]|exact R3].
+      intros r y v e Hy Hl. destruct (R2 r y v e Hy Hl) as [Z|[g' [G1 [G2 G3]]]]; [now left|]. right. exists g'. rewrite (DS g' G3), GL. auto.
   Qed.
 
   Lemma setpc_L4 :
@@ -625,7 +640,7 @@ Section SetPc.
   Qed.
 
   Lemma setpc_inv :
-    (forall v hr e, p = GStore v hr e -> v = S g) -> (p = GWaitC -> gcanc x = true) ->
+    (forall v hr e, p = GStore v hr e -> val_ok g v e) -> (p = GWaitC -> gcanc x = true) ->
     (forall v e, gpcv x <> GStore v true e) -> (gdone (with_gpc x p) = true -> gnonce x <> nonce s \/ rcanc s (kctx s) = true) ->
     Inv s -> Inv s'.
   Proof.
@@ -679,7 +694,7 @@ Proof.
     destruct H as [[_ [HS _]] _]. destruct (getg_nth_error s g x Ex) as [Eg Hl]. destruct (HS g Hl) as [_ S2]. rewrite Eg in S2. now apply S2.
 Qed.
 
-Lemma resolver_return_inv s g v hr e : v = S g -> Inv s -> Inv (resolver_return s g v hr e).
+Lemma resolver_return_inv s g v hr e : val_ok g v e -> Inv s -> Inv (resolver_return s g v hr e).
 Proof.
   intros Hv H. unfold resolver_return. destruct (nth_error (gs s) g) as [x|] eqn:Ex; [|exact H].
   destruct (gpcv x) eqn:Ep; try exact H.
@@ -712,7 +727,7 @@ Proof.
   destruct (resolved s) eqn:Er.
   - destruct (V1 eq_refl) as [A1 [_ [A3 _]]]. destruct (V5 eq_refl) as [T1 T2].
     destruct (Nat.eq_dec (verr s) 0) as [E0|E0].
-    + destruct (T1 E0) as [T _]. assert (vgen s = g) by lia. subst g. congruence.
+    + destruct (T1 E0) as [T _]. destruct A1 as [A1|[_ A1]]; [|contradiction]. assert (vgen s = g) by lia. subst g. congruence.
     + destruct (T2 E0) as [T _]. lia.
   - destruct (V2 eq_refl) as [_ [_ [_ [T _]]]]. lia.
 Qed.
@@ -721,22 +736,47 @@ Lemma stale_zero_pending s g x e :
   InvR s -> nth_error (gs s) g = Some x -> gdone x = false ->
   cnt (fun y => rin y && is_res (S g) e (rlast y)) (refs s) = 0.
 Proof.
-  intros [_ [R2 _]] Hx Hnd. destruct (getg_nth_error s g x Hx) as [Eg _].
+  intros [_ [[R2 _] _]] Hx Hnd. destruct (getg_nth_error s g x Hx) as [Eg _].
   apply cnt_zero_forall. intros y Hin. destruct (In_nth_error _ _ Hin) as [r Hr].
   destruct (rlast y) as [[|v' e']|] eqn:El; cbn [is_res]; try apply andb_false_r.
   destruct (Nat.eqb_spec (S g) v') as [E|E]; [|apply andb_false_r]. exfalso.
-  destruct (R2 r y v' e' Hr El) as [g' [G1 [_ G3]]]. assert (g' = g) by lia. subst g'. congruence.
+  destruct (R2 r y v' e' Hr El) as [[Z _]|[g' [G1 [_ G3]]]]; [lia|]. assert (g' = g) by lia. subst g'. congruence.
 Qed.
 
-Lemma store_inv s g : Inv s -> Inv (store s g).
+(* while a value (or an error) is stored, every resolve goroutine has finished: the stored generation is the newest one
+   (nonces), and it entered the resolver only after all earlier ones had finished (chain of done channels) *)
+Lemma pending_unresolved s g x :
+  InvCh s -> InvN s -> InvV s -> nth_error (gs s) g = Some x -> gdone x = false -> resolved s = false.
 Proof.
-  intros H. unfold store. destruct (nth_error (gs s) g) as [x|] eqn:Ex; [|exact H].
+  intros [HI _] HN [V1 _] Hx Hnd. destruct (resolved s) eqn:Er; [|reflexivity]. exfalso.
+  destruct (V1 eq_refl) as [_ [A2 [A3 A4]]]. destruct (getg_nth_error s g x Hx) as [Eg Hl].
+  assert (Hy : nth_error (gs s) (vgen s) = Some (getg s (vgen s))) by (unfold getg; now apply nth_error_nth').
+  destruct (Nat.lt_trichotomy (vgen s) g) as [H|[H|H]].
+  - destruct (HN g Hl) as [N1 [_ N3]]. specialize (N3 _ H). rewrite A4 in N3. lia.
+  - subst g. rewrite Eg in A3. congruence.
+  - destruct (HI _ _ Hy) as [_ G3].
+    assert (Hact : act (getg s (vgen s)) = true) by (unfold act; unfold gdone in A3; destruct (gpcv (getg s (vgen s))); auto; discriminate).
+    specialize (G3 Hact g x H Hx). congruence.
+Qed.
+
+Lemma stale_zero_unresolved s v e : InvR s -> resolved s = false -> cnt (fun y => rin y && is_res v e (rlast y)) (refs s) = 0.
+Proof.
+  intros [_ [[_ R4] _]] Er. apply cnt_zero_forall. intros y Hin. destruct (In_nth_error _ _ Hin) as [r Hr].
+  destruct (rin y) eqn:Ei; [|reflexivity]. cbn [andb].
+  destruct (rlast y) as [[|v' e']|] eqn:El; cbn [is_res]; try reflexivity.
+  exfalso. exact (R4 Er r y v' e' Hr Ei El).
+Qed.
+
+Lemma store_inv s g : InvCh s -> Inv s -> Inv (store s g).
+Proof.
+  intros HCh H. unfold store. destruct (nth_error (gs s) g) as [x|] eqn:Ex; [|exact H].
   destruct (gpcv x) eqn:Ep; try exact H.
   destruct H as [[HN [HS [HL [HL4 [HV HR]]]]] HLive].
   assert (Hnd : gdone x = false) by (unfold gdone; now rewrite Ep).
   destruct (getg_nth_error s g x Ex) as [Eg Hl].
-  assert (Hv : v = S g /\ grel x = hasrel) by (destruct (HS g Hl) as [S1 _]; rewrite Eg in S1; exact (S1 v hasrel e Ep)).
-  destruct Hv as [-> Hgr].
+  assert (Hv : val_ok g v e /\ grel x = hasrel) by (destruct (HS g Hl) as [S1 _]; rewrite Eg in S1; exact (S1 v hasrel e Ep)).
+  destruct Hv as [Hv Hgr].
+  assert (Hunres : resolved s = false) by exact (pending_unresolved s g x HCh HN HV Ex Hnd).
   destruct (setpc_core5 s g x GDone Ex Hnd ltac:(intros; discriminate) ltac:(intros; discriminate) HN HS HL HV HR) as [N0 [S0 [L0 [V0 R0]]]].
   pose proof (setpc_len s g x GDone) as GL. pose proof (setpc_same s g x GDone Ex) as GS. pose proof (setpc_other s g x GDone) as GO.
   assert (NotIn : ~ In g (ids s)) by (intros Hin; destruct (in_ids_done s g HL Hin) as [_ Hd]; congruence).
@@ -751,17 +791,17 @@ Proof.
   - (* the result is stored and delivered *)
     destruct HLive as [N3 [K [P N4]]]. rewrite <- Eg in Enc. destruct (N3 g Hl (eq_sym Enc) ltac:(now rewrite Eg)) as [Hk [Hnr Hres]].
     destruct HV as [V1 [V2 [V3 V5]]]. destruct (V2 Hres) as [X0 [X1 [X2 [X3 X4]]]].
-    set (s1 := set_val s0 true (S g) e (if hasrel then Some g else None) g).
-    set (s2 := if Nat.eqb e 0 then set_target s1 (S g) 0 else set_target s1 (target s1) e).
-    assert (F2 : gs s2 = gs s0 /\ nonce s2 = nonce s /\ rellog s2 = rellog s /\ resolved s2 = true /\ value s2 = S g /\ verr s2 = e /\
+    set (s1 := set_val s0 true v e (if hasrel then Some g else None) g).
+    set (s2 := if Nat.eqb e 0 then set_target s1 v 0 else set_target s1 (target s1) e).
+    assert (F2 : gs s2 = gs s0 /\ nonce s2 = nonce s /\ rellog s2 = rellog s /\ resolved s2 = true /\ value s2 = v /\ verr s2 = e /\
                  vrel s2 = (if hasrel then Some g else None) /\ vgen s2 = g /\ refs s2 = refs s /\ kctx s2 = kctx s /\ keep s2 = keep s /\
-                 target s2 = (if Nat.eqb e 0 then S g else 0) /\ terr s2 = (if Nat.eqb e 0 then 0 else e)).
+                 target s2 = (if Nat.eqb e 0 then v else 0) /\ terr s2 = (if Nat.eqb e 0 then 0 else e)).
     { unfold s2. destruct (Nat.eqb e 0); cbn; rewrite ?X3; repeat split; reflexivity. }
     destruct F2 as [F1 [F2 [F3 [F4 [F5 [F6 [F7 [F8 [F9 [F10 [F11 [F12 F13]]]]]]]]]]]].
-    pose proof (told_call_cbs s2 (NRes (S g) e)) as T. rewrite F9 in T.
-    destruct (rest_fields s2 _ (rest_call_cbs s2 (NRes (S g) e))) as [Q1 [Q2 [_ [Q4 [_ [Q6 [Q7 [Q8 [Q9 [Q10 [Q11 [Q12 [Q13 [Q14 [_ [_ Q17]]]]]]]]]]]]]]]].
+    pose proof (told_call_cbs s2 (NRes v e)) as T. rewrite F9 in T.
+    destruct (rest_fields s2 _ (rest_call_cbs s2 (NRes v e))) as [Q1 [Q2 [_ [Q4 [_ [Q6 [Q7 [Q8 [Q9 [Q10 [Q11 [Q12 [Q13 [Q14 [_ [_ Q17]]]]]]]]]]]]]]]].
     assert (F17 : rootc s2 = rootc s) by (unfold s2, s1; destruct (Nat.eqb e 0); reflexivity). rewrite F17 in Q17.
-    set (s' := call_cbs s2 (NRes (S g) e)) in *. clearbody s' s2 s1.
+    set (s' := call_cbs s2 (NRes v e)) in *. clearbody s' s2 s1.
     rewrite F10 in Q1. rewrite F11 in Q2. rewrite F2 in Q4. rewrite F4 in Q6. rewrite F5 in Q7. rewrite F6 in Q8. rewrite F7 in Q9. rewrite F8 in Q10.
     rewrite F12 in Q11. rewrite F13 in Q12. rewrite F1 in Q13. rewrite F3 in Q14.
     assert (GE : forall i, getg s' i = getg s0 i) by (intros i; unfold getg; now rewrite Q13).
@@ -779,17 +819,19 @@ Proof.
         -- rewrite Rg in Hr. right. left. now rewrite Hr.
         -- destruct (L4x i Hne Hi Hr) as [A|[A|A]]; [now left | congruence | right; right; exact A].
       * split; [|split; [intros; congruence | split]].
-        -- intros _. rewrite Q7, Q10, Q13, GE, Q4. split; [reflexivity|]. split; [now rewrite GL|]. split; [exact Dg|]. rewrite GS. cbn [gnonce with_gpc].
+        -- intros _. rewrite Q7, Q8, Q10, Q13, GE, Q4. split; [exact Hv|]. split; [now rewrite GL|]. split; [exact Dg|]. rewrite GS. cbn [gnonce with_gpc].
            rewrite <- Eg. now rewrite <- Enc.
         -- intros g' Hg'. rewrite Q9 in Hg'. rewrite Q10. destruct hasrel; [congruence | discriminate].
         -- intros _. rewrite Q7, Q8, Q11, Q12. destruct (Nat.eqb_spec e 0) as [E0|E0]; split; intros; try contradiction; auto.
-      * destruct HR as [R1 [R2 R3]]. split; [|split].
+      * destruct HR as [R1 [[R2 R4] R3]]. split; [|split; [split|]].
         -- intros r y' Hy' Ky. destruct (told_back _ _ _ _ _ _ T Hy') as [y [Hy [B1 [B2 B3]]]]. rewrite B2 in Ky. rewrite Ky in B3.
            cbn [nonnil] in B3. rewrite andb_false_r in B3. rewrite B3. exact (R1 r y Hy Ky).
         -- intros r y' v' e' Hy' Hl'. destruct (told_back _ _ _ _ _ _ T Hy') as [y [Hy [B1 [B2 B3]]]]. rewrite Q13.
            destruct (inset r y && nonnil (rkind y)).
-           ++ assert (v' = S g) by congruence. subst v'. exists g. rewrite GE. split; [reflexivity|]. split; [now rewrite GL | exact Dg].
-           ++ rewrite B3 in Hl'. destruct R0 as [_ [R02 _]]. destruct (R02 r y v' e' Hy Hl') as [g' [G1 [G2 G3]]]. exists g'. rewrite GE. auto.
+           ++ assert (Ev : v' = v /\ e' = e) by (split; congruence). destruct Ev as [-> ->].
+              destruct Hv as [Hv|Hv]; [right | now left]. exists g. rewrite GE. split; [exact Hv|]. split; [now rewrite GL | exact Dg].
+           ++ rewrite B3 in Hl'. destruct R0 as [_ [[R02 _] _]]. destruct (R02 r y v' e' Hy Hl') as [Z|[g' [G1 [G2 G3]]]]; [now left|]. right. exists g'. rewrite GE. auto.
+        -- intros Hc. congruence.
         -- intros _ r y' Hy' Hin Hkn. destruct (told_back _ _ _ _ _ _ T Hy') as [y [Hy [B1 [B2 B3]]]]. rewrite Q7, Q8.
            unfold inset in B3. rewrite <- B1, Hin in B3. rewrite <- B2 in B3. destruct (rkind y'); [contradiction|..]; exact B3.
     + assert (NR : nrefs s' = nrefs s) by (unfold nrefs; eapply told_nrefs; eauto).
@@ -804,16 +846,17 @@ Proof.
   - (* superseded: the result is dropped, its release function called at once *)
     assert (Live0 : Live s0) by (apply (setpc_live s g x GDone Ex Hnd); [intros _; left; congruence | exact HLive]).
     destruct hasrel.
-    + set (c := {| rc_id := g; rc_val := S g; rc_target := target s0;
-                   rc_stale := cnt (fun y => rin y && is_res (S g) e (rlast y)) (refs s0) |}).
-      change (log_release s0 g (S g) e) with (set_rellog s0 (rellog s0 ++ [c])).
+    + set (c := {| rc_id := g; rc_val := v; rc_target := target s0;
+                   rc_stale := cnt (fun y => rin y && is_res v e (rlast y)) (refs s0) |}).
+      change (log_release s0 g v e) with (set_rellog s0 (rellog s0 ++ [c])).
       split; [|apply (Live_ext s0); [reflexivity | exact Live0]].
       split; [exact N0|]. split; [exact S0|]. destruct L0 as [A1 [A2 A3]]. split; [|split; [|split; [exact V0 | exact R0]]].
       * split; [|split].
         -- unfold ids. cbn [rellog set_rellog]. rewrite map_app. apply NoDup_snoc; [exact A1 | exact NotIn].
         -- intros c' Hc'. cbn [rellog set_rellog] in Hc'. apply in_app_or in Hc'. destruct Hc' as [Hc'|[<-|[]]]; [exact (A2 c' Hc')|].
-           unfold entry_ok. cbn [rc_id rc_val rc_target rc_stale]. split; [reflexivity|]. split; [exact (target_not_pending s g x HV Ex Hnd)|].
-           split; [exact (stale_zero_pending s g x e HR Ex Hnd)|]. split; [exact (eq_ind_r (fun n => g < n) Hl GL)|]. split; [exact Dg | exact Rg].
+           unfold entry_ok. cbn [rc_id rc_val rc_target rc_stale].
+           split; [destruct Hv as [Hv|[Hv _]]; auto|]. split; [exact (target_not_pending s g x HV Ex Hnd)|].
+           split; [exact (stale_zero_unresolved s v e HR Hunres)|]. split; [exact (eq_ind_r (fun n => g < n) Hl GL)|]. split; [exact Dg | exact Rg].
         -- intros g' Hg'. destruct (A3 g' Hg') as [B1 [B2 [B3 B4]]]. split; [|auto]. unfold ids. cbn [rellog set_rellog]. rewrite map_app.
            intros Hin. apply in_app_or in Hin. destruct Hin as [Hin|[Hin|[]]]; [exact (B1 Hin)|]. cbn [rc_id c] in Hin. subst g'.
            destruct HL as [_ [_ L3]]. destruct (L3 g Hg') as [_ [_ [C3 _]]]. congruence.
@@ -831,15 +874,16 @@ Lemma InvR_set_nth s r x y :
   InvR s -> nth_error (refs s) r = Some x -> rkind y = rkind x -> rlast y = rlast x -> (rin y = true -> rin x = true) ->
   InvR (set_refs s (set_nth (refs s) r y)).
 Proof.
-  intros [R1 [R2 R3]] Hx Ek El Ei. assert (Hl : r < length (refs s)) by (eapply nth_error_nth_len; eauto).
+  intros [R1 [[R2 R4] R3]] Hx Ek El Ei. assert (Hl : r < length (refs s)) by (eapply nth_error_nth_len; eauto).
   assert (B : forall q z, nth_error (set_nth (refs s) r y) q = Some z ->
                 exists z0, nth_error (refs s) q = Some z0 /\ rkind z = rkind z0 /\ rlast z = rlast z0 /\ (rin z = true -> rin z0 = true)).
   { intros q z Hz. destruct (Nat.eq_dec q r) as [->|Hne].
     - rewrite nth_error_set_nth_same in Hz by exact Hl. inversion Hz; subst z. exists x. auto.
     - rewrite nth_error_set_nth_other in Hz by exact Hne. exists z. auto. }
-  split; [|split]; cbn [refs set_refs resolved value verr gs].
+  split; [|split; [split|]]; cbn [refs set_refs resolved value verr gs].
   - intros q z Hz K. destruct (B q z Hz) as [z0 [H0 [B1 [B2 _]]]]. rewrite B2. apply (R1 q z0 H0). congruence.
   - intros q z v e Hz El'. destruct (B q z Hz) as [z0 [H0 [_ [B2 _]]]]. rewrite B2 in El'. exact (R2 q z0 v e H0 El').
+  - intros Hres q z v e Hz Hin El'. destruct (B q z Hz) as [z0 [H0 [_ [B2 B3]]]]. rewrite B2 in El'. exact (R4 Hres q z0 v e H0 (B3 Hin) El').
   - intros Hres q z Hz Hin Hk. destruct (B q z Hz) as [z0 [H0 [B1 [B2 B3]]]]. rewrite B2. apply (R3 Hres q z0 H0 (B3 Hin)). congruence.
 Qed.
 
@@ -857,10 +901,11 @@ Proof. unfold nrefs. cbn [refs set_refs]. rewrite cnt_app, cnt_cons, cnt_nil. cb
 
 Lemma Core_addref s k : Core s -> (resolved s = false \/ k = KNil) -> Core (set_refs s (refs s ++ [newref k])).
 Proof.
-  intros H Hc. apply (Core_refs s); [reflexivity | | exact H]. destruct H as [_ [_ [_ [_ [_ [R1 [R2 R3]]]]]]].
-  split; [|split]; cbn [refs set_refs resolved value verr gs].
+  intros H Hc. apply (Core_refs s); [reflexivity | | exact H]. destruct H as [_ [_ [_ [_ [_ [R1 [[R2 R4] R3]]]]]]].
+  split; [|split; [split|]]; cbn [refs set_refs resolved value verr gs].
   - intros q z Hz K. destruct (nth_error_snoc_cases _ _ _ _ Hz) as [[_ H0]|[_ ->]]; [exact (R1 q z H0 K) | reflexivity].
   - intros q z v e Hz El. destruct (nth_error_snoc_cases _ _ _ _ Hz) as [[_ H0]|[_ ->]]; [exact (R2 q z v e H0 El) | discriminate].
+  - intros Hres q z v e Hz Hin El. destruct (nth_error_snoc_cases _ _ _ _ Hz) as [[_ H0]|[_ ->]]; [exact (R4 Hres q z v e H0 Hin El) | discriminate].
   - intros Hres q z Hz Hin Hk. destruct (nth_error_snoc_cases _ _ _ _ Hz) as [[_ H0]|[_ ->]]; [exact (R3 Hres q z H0 Hin Hk)|].
     destruct Hc as [Hc|Hc]; [congruence | contradiction].
 Qed.
@@ -882,7 +927,7 @@ Proof.
   pose proof (told_invoke s1 r n) as T.
   destruct (rest_fields s1 _ (rest_invoke s1 r n)) as [_ [_ [_ [_ [_ [Q6 [Q7 [Q8 [_ [_ [_ [_ [Q13 _]]]]]]]]]]]]].
   set (s2 := invoke s1 r n) in *.
-  destruct HC as [_ [_ [_ [_ [[V1 _] [R1 [R2 R3]]]]]]]. destruct (V1 Er) as [A1 [A2 [A3 _]]].
+  destruct HC as [_ [_ [_ [_ [[V1 _] [R1 [[R2 R4] R3]]]]]]]. destruct (V1 Er) as [A1 [A2 [A3 _]]].
   assert (B : forall q z', nth_error (refs s2) q = Some z' ->
            (q < r /\ exists z, nth_error (refs s) q = Some z /\ rin z' = rin z /\ rkind z' = rkind z /\ rlast z' = rlast z) \/
            (q = r /\ rkind z' <> KNil /\ rlast z' = Some n)).
@@ -892,11 +937,13 @@ Proof.
     - right. split; [exact Hq|]. fold r in Hq. rewrite Hq, Nat.eqb_refl in B3. cbn [rkind newref andb] in B3, B2. rewrite B2. split; [exact Hk|].
       destruct k; [contradiction|..]; exact B3. }
   assert (GE : forall i, getg s2 i = getg s i) by (intros i; unfold getg; rewrite Q13; reflexivity).
-  split; [|split]; rewrite ?Q6, ?Q7, ?Q8, ?Q13; cbn [resolved value verr gs set_refs s1].
+  split; [|split; [split|]]; rewrite ?Q6, ?Q7, ?Q8, ?Q13; cbn [resolved value verr gs set_refs s1].
   - intros q z' Hz' K. destruct (B q z' Hz') as [[_ [z [H0 [B1 [B2 B3]]]]]|[_ [B2 _]]]; [|contradiction]. rewrite B3. apply (R1 q z H0). congruence.
   - intros q z' v e Hz' El. destruct (B q z' Hz') as [[_ [z [H0 [B1 [B2 B3]]]]]|[_ [_ B3]]].
-    + rewrite B3 in El. destruct (R2 q z v e H0 El) as [g' G']. exists g'. rewrite GE. exact G'.
-    + exists (vgen s). rewrite GE. unfold n in B3. split; [congruence | auto].
+    + rewrite B3 in El. destruct (R2 q z v e H0 El) as [Z|[g' G']]; [now left|]. right. exists g'. rewrite GE. exact G'.
+    + unfold n in B3. assert (Ev : v = value s /\ e = verr s) by (split; congruence). destruct Ev as [-> ->].
+      destruct A1 as [A1|A1]; [right | now left]. exists (vgen s). rewrite GE. auto.
+  - intros Hres. rewrite Er in Hres. discriminate.
   - intros _ q z' Hz' Hin Hkz. destruct (B q z' Hz') as [[_ [z [H0 [B1 [B2 B3]]]]]|[_ [_ B3]]]; [|exact B3].
     rewrite B3. apply (R3 Er q z H0); congruence.
 Qed.
@@ -1033,7 +1080,7 @@ Lemma Inv_gsame s s' :
   (forall i, i < length (gs s) -> gcanc (getg s' i) = true -> gcanc (getg s i) = true \/ rcanc s (groot (getg s i)) = true) ->
   Inv s -> Inv s'.
 Proof.
-  intros GS EO HC [[HN [HS [[L1 [L2 L3]] [HL4 [[V1 [V2 [V3 V5]]] [R1 [R2 R3]]]]]]] [N3 [K [P N4]]]].
+  intros GS EO HC [[HN [HS [[L1 [L2 L3]] [HL4 [[V1 [V2 [V3 V5]]] [R1 [[R2 R4] R3]]]]]]] [N3 [K [P N4]]]].
   unfold ofields in EO. inversion EO as [[O1 O2 O3 O4 O5 O6 O7 O8 O9 O10 O11 O12 O13]].
   assert (GD : forall i, gdone (getg s' i) = gdone (getg s i)) by (intros i; now apply gsame_gdone).
   destruct GS as [GL GF].
@@ -1053,8 +1100,8 @@ Proof.
     + intros g Hg Hr. rewrite GL in Hg. destruct (GF g) as [_ [_ [Ep [Er _]]]]. rewrite Er in Hr. rewrite Ep. unfold ids. rewrite O2, O6. exact (HL4 g Hg Hr).
     + unfold InvV. rewrite O3, O4, O5, O6, O7, O8, O9, O1, GL. split; [|auto].
       intros Hres. destruct (V1 Hres) as [A1 [A2 [A3 A4]]]. rewrite GD. destruct (GF (vgen s)) as [_ [En _]]. rewrite En. auto.
-    + unfold InvR. rewrite O10, O3, O4, O5, GL. split; [exact R1|]. split; [|exact R3].
-      intros r y v e Hy Hl. destruct (R2 r y v e Hy Hl) as [g [G1 [G2 G3]]]. exists g. rewrite GD. auto.
+    + unfold InvR. rewrite O10, O3, O4, O5, GL. split; [exact R1|]. split; [split; [|exact R4]|exact R3].
+      intros r y v e Hy Hl. destruct (R2 r y v e Hy Hl) as [Z|[g [G1 [G2 G3]]]]; [now left|]. right. exists g. rewrite GD. auto.
   - split; [|split; [|split]]; rewrite ?O3, ?O5, ?O12, ?O13, ?NR, ?GL, ?RC, ?O1.
     + intros g Hg En Hd. destruct (GF g) as [_ [E1 _]]. rewrite E1 in En. rewrite GD in Hd. exact (N3 g Hg En Hd).
     + exact K.
@@ -1097,9 +1144,9 @@ Proof.
   intros i Hi Hci. destruct (cancel_g_only s0 g i Hci) as [D|[-> _]]; [now left | right; now rewrite E].
 Qed.
 
-Lemma step_inv s e : wf_ev e -> Inv s -> Inv (step repaired s e).
+Lemma step_inv s e : wf_ev e -> InvCh s -> Inv s -> Inv (step repaired s e).
 Proof.
-  intros Hwf H. destruct e; cbn [step].
+  intros Hwf HCh H. destruct e; cbn [step].
   - now apply set_context_inv.
   - now apply add_ref_inv.
   - destruct (rkind (nth r (refs s) ref0)); try exact H; now apply release_call_by_inv.
@@ -1123,7 +1170,7 @@ Proof. unfold run. now rewrite fold_left_app. Qed.
 Theorem run_inv k es : Forall wf_ev es -> Inv (run repaired (init k) es).
 Proof.
   induction es as [|e es IH] using rev_ind; intros Hwf; [apply init_inv|].
-  rewrite run_app. apply Forall_app in Hwf. destruct Hwf as [H1 H2]. inversion H2; subst. apply step_inv; auto.
+  rewrite run_app. apply Forall_app in Hwf. destruct Hwf as [H1 H2]. inversion H2; subst. apply step_inv; auto. apply run_chain.
 Qed.
 
 (* ------------------------------------------------------------------ *)
@@ -1140,9 +1187,12 @@ Section C08.
      believes the value is current; only release functions that were returned are called, after their goroutine's end *)
   Theorem at_release_target_clear_and_refs_told c :
     In c (rellog s) ->
-    rc_val c = S (rc_id c) /\ rc_target c <> rc_val c /\ rc_stale c = 0 /\
+    (rc_val c = S (rc_id c) \/ rc_val c = 0) /\ rc_target c <> S (rc_id c) /\ (rc_val c <> 0 -> rc_target c <> rc_val c) /\ rc_stale c = 0 /\
     rc_id c < length (gs s) /\ gdone (getg s (rc_id c)) = true /\ grel (getg s (rc_id c)) = true.
-  Proof. intros Hc. destruct (run_inv k es Hwf) as [[_ [_ [[_ [L2 _]] _]]] _]. exact (L2 c Hc). Qed.
+  Proof.
+    intros Hc. destruct (run_inv k es Hwf) as [[_ [_ [[_ [L2 _]] _]]] _]. destruct (L2 c Hc) as [E1 [E2 E3]].
+    split; [exact E1|]. split; [exact E2|]. split; [|exact E3]. intros Hz. destruct E1 as [E1|E1]; [congruence | contradiction].
+  Qed.
 
   Theorem stored_iff_unreleased g :
     g < length (gs s) -> grel (getg s g) = true ->
@@ -1160,7 +1210,7 @@ Section C08.
   Theorem no_leak g :
     g < length (gs s) -> grel (getg s g) = true -> ~ In g (map rc_id (rellog s)) ->
     (exists v e, gpcv (getg s g) = GStore v true e) \/
-    (vrel s = Some g /\ resolved s = true /\ value s = S g /\ kctx s <> 0 /\ (nrefs s > 0 \/ (keep s = true /\ verr s = 0))).
+    (vrel s = Some g /\ resolved s = true /\ val_ok g (value s) (verr s) /\ kctx s <> 0 /\ (nrefs s > 0 \/ (keep s = true /\ verr s = 0))).
   Proof.
     intros Hg Hr Hn. destruct (stored_iff_unreleased g Hg Hr) as [A _]. destruct (A Hn) as [H|H]; [right | now left].
     destruct (run_inv k es Hwf) as [[_ [_ [_ [_ [[V1 [V2 [V3 _]]] _]]]]] [_ [K _]]]. fold s in V1, V2, V3, K.
@@ -1168,18 +1218,23 @@ Section C08.
     destruct (V1 eq_refl) as [B1 _]. rewrite (V3 g H). rewrite <- (V3 g H). split; [exact H|]. split; [reflexivity|]. split; [rewrite (V3 g H); exact B1|]. exact (K eq_refl).
   Qed.
 
-  (* while a resolver result waits at its store gate, its value is nowhere in circulation *)
+  (* while a resolver result waits at its store gate, it is nowhere in circulation: nothing is stored at all, the target
+     container is empty, no reference in the set believes in any result, and no reference was ever told this
+     generation's value *)
   Theorem pending_value_not_in_circulation g v hr e :
     g < length (gs s) -> gpcv (getg s g) = GStore v hr e ->
-    v = S g /\ target s <> v /\ (resolved s = true -> value s <> v) /\
-    (forall r x er, nth_error (refs s) r = Some x -> rlast x <> Some (NRes v er)).
+    val_ok g v e /\ resolved s = false /\ target s = 0 /\
+    (forall r x er, nth_error (refs s) r = Some x -> rlast x <> Some (NRes (S g) er)) /\
+    (forall r x v' e', nth_error (refs s) r = Some x -> rin x = true -> rlast x <> Some (NRes v' e')).
   Proof.
-    intros Hg Hp. destruct (run_inv k es Hwf) as [[_ [HS [_ [_ [HV HR]]]]] _]. fold s in HS, HV, HR.
-    destruct (HS g Hg) as [S1 _]. destruct (S1 v hr e Hp) as [-> _].
+    intros Hg Hp. destruct (run_inv k es Hwf) as [[HN [HS [_ [_ [HV HR]]]]] _]. pose proof (run_chain k es) as HCh. fold s in HN, HS, HV, HR, HCh.
+    destruct (HS g Hg) as [S1 _]. destruct (S1 v hr e Hp) as [Hv _].
     assert (Hx : nth_error (gs s) g = Some (getg s g)) by (unfold getg; apply nth_error_nth'; exact Hg).
     assert (Hnd : gdone (getg s g) = false) by (unfold gdone; now rewrite Hp).
-    split; [reflexivity|]. split; [exact (target_not_pending s g _ HV Hx Hnd)|]. split.
-    - intros Er Ev. destruct HV as [V1 _]. destruct (V1 Er) as [A1 [_ [A3 _]]]. assert (vgen s = g) by lia. subst g. congruence.
-    - intros r x er Hr El. destruct HR as [_ [R2 _]]. destruct (R2 r x (S g) er Hr El) as [g' [G1 [_ G3]]]. assert (g' = g) by lia. subst g'. congruence.
+    pose proof (pending_unresolved s g _ HCh HN HV Hx Hnd) as Er.
+    split; [exact Hv|]. split; [exact Er|]. split; [destruct HV as [_ [V2 _]]; apply (V2 Er)|]. split.
+    - intros r x er Hr El. destruct HR as [_ [[R2 _] _]]. destruct (R2 r x (S g) er Hr El) as [[Z _]|[g' [G1 [_ G3]]]]; [discriminate|].
+      assert (g' = g) by lia. subst g'. congruence.
+    - intros r x v' e' Hr Hin. destruct HR as [_ [[_ R4] _]]. exact (R4 Er r x v' e' Hr Hin).
   Qed.
 End C08.
